@@ -181,6 +181,11 @@ def _terms(F, ex, fn, _d=0):
         ds = F.flow.defs(fn.node).get(ex.id)
         if ds and ex.id not in Q.params(fn.node):
             out = []
+            rd = F.flow._reaching_values(ex.id, ds, fn, ex) if len(
+                ds) >= 2 and getattr(ex, '_parent', None) is not None \
+                else None
+            if rd is not None:
+                ds = [('value', e2, None) for e2 in rd]
             for kind, e2, idx in ds:
                 if kind in ('value', 'seq'):
                     out += _terms(F, e2, fn, _d + 1)
